@@ -1,12 +1,999 @@
-// Package c11 checks property C11 (not built yet).
+// Package c11 checks property C11: names and strings are escaped losslessly
+// and unambiguously.
+//
+// (S) spec/LiteralsName.tla: LLVM's lexer rules (Literals!DecodeToken) against
+// LLVM's printer rules (Literals!RefEncode) on all byte strings up to a bound;
+// with AsImplemented = TRUE the model of internal/enc shows the known defects.
+// (G) spec -> code: TLC emits (kind, bytes, reference token); the token is put
+// into a module text at every grammar position of that kind; llvm-as |
+// llvm-dis must spell it the same way (validates the spec's model of LLVM), and
+// the real parser (asm.ParseString) must deliver exactly the bytes, as a name.
+// (T) code -> spec: the bytes are put into a module through the public ir API,
+// the module is printed; the printed token is judged by TLC
+// (spec/LiteralsNameTrace.tla: DecodeToken(kind, token) = bytes), read by
+// llvm-as | llvm-dis (whose canonical spelling is again decoded by TLC), and
+// parsed back by asm.ParseString.  The encoders of internal/enc are recorded
+// directly as well (package verifshim).
 package c11
 
 import (
+	"encoding/hex"
+	"encoding/json"
+	"fmt"
+	"math/rand"
+	"os"
+	"regexp"
+	"sort"
+	"strconv"
+	"strings"
+	"sync"
+	"time"
+
+	"github.com/llir/llvm/asm"
+	"github.com/llir/llvm/ir"
+	"github.com/llir/llvm/verifshim"
+
+	"verif/harness/llvmoracle"
 	"verif/harness/mbt"
 	"verif/harness/props/reg"
 )
 
 func init() { reg.Register("C11", Run) }
 
+// row is one observation handed to LiteralsNameTrace.tla.
+type row struct {
+	K     string `json:"k"` // "tok", "id", "unescape"
+	Kind  string `json:"kind"`
+	Bytes []int  `json:"bytes"`
+	Tok   []int  `json:"tok"`
+	Pos   string `json:"pos"`
+	Src   string `json:"src"`
+}
+
+func ints(s string) []int {
+	out := make([]int, len(s))
+	for i := 0; i < len(s); i++ {
+		out[i] = int(s[i])
+	}
+	return out
+}
+
+func str(bs []int) string {
+	b := make([]byte, len(bs))
+	for i, v := range bs {
+		b[i] = byte(v)
+	}
+	return string(b)
+}
+
+// shape abstracts a byte string for failure signatures.
+func shape(b string) string {
+	if b == "" {
+		return "empty"
+	}
+	digits := true
+	for i := 0; i < len(b); i++ {
+		if b[i] < '0' || b[i] > '9' {
+			digits = false
+		}
+	}
+	if digits {
+		if _, err := strconv.ParseUint(b, 10, 64); err == nil {
+			return "all digits"
+		}
+		return "all digits beyond uint64"
+	}
+	var cl []string
+	has := map[string]bool{}
+	add := func(c string) {
+		if !has[c] {
+			has[c] = true
+			cl = append(cl, c)
+		}
+	}
+	if b[0] >= '0' && b[0] <= '9' {
+		add("leading digit")
+	}
+	for i := 0; i < len(b); i++ {
+		c := b[i]
+		switch {
+		case c == 0:
+			add("NUL")
+		case c == '"':
+			add("quote")
+		case c == '\\':
+			add("backslash")
+		case c < 0x20 || c == 0x7F:
+			add("control")
+		case c >= 0x80:
+			add("high")
+		case c >= '0' && c <= '9', c >= 'a' && c <= 'z', c >= 'A' && c <= 'Z', c == '$', c == '-', c == '.', c == '_':
+		default:
+			add("punct")
+		}
+	}
+	if len(cl) == 0 {
+		return "bare"
+	}
+	sort.Strings(cl)
+	return strings.Join(cl, "+")
+}
+
+// obs is what the check learnt about one (position, bytes) pair in the code -> spec direction.
+type obs struct {
+	pos      *position
+	it       item
+	text     string // printed single-item module
+	tok      string // printed token
+	printed  bool
+	specBad  string // class reported by TLC for the printed token ("" = decodes to the bytes)
+	llvmOK   bool   // llvm-as accepted the printed module
+	llvmDiag string
+	llvmTok  string
+	llvmBad  string // class reported by TLC for LLVM's spelling
+}
+
+type checker struct {
+	rep      *mbt.Report
+	tier     string
+	discards int
+	judged   int
+	mu       sync.Mutex
+	uniq     map[string]string // position|token -> bytes (printed alike check)
+}
+
+func (c *checker) kase(dir string, p *position, b string) map[string]interface{} {
+	return map[string]interface{}{"dir": dir, "pos": p.name, "bytes": hex.EncodeToString([]byte(b)), "text": b}
+}
+
+func (c *checker) discard(format string, a ...interface{}) {
+	c.mu.Lock()
+	defer c.mu.Unlock()
+	c.discards++
+	if c.discards <= 8 {
+		c.rep.Note("spec/LLVM disagreement (record discarded, never a verdict): "+format, a...)
+	}
+}
+
+var reBad = regexp.MustCompile(`<<"BADROW", "([^"]+)", (\d+)>>`)
+
+// judge lets TLC evaluate LiteralsNameTrace on the rows; the result maps row index -> failure class.
+func (c *checker) judge(rows []row, label string) map[int]string {
+	out := map[int]string{}
+	if len(rows) == 0 {
+		return out
+	}
+	chunks := 64
+	if len(rows) < chunks {
+		chunks = len(rows)
+	}
+	t := mbt.MustTLC(mbt.TLCOpts{Spec: "LiteralsNameTrace", Cfg: "LiteralsNameTrace.cfg", Workers: 8, Continue: true,
+		Consts: map[string]string{"Chunks": strconv.Itoa(chunks)},
+		Data:   map[string][]byte{"c11_rec.ndjson": mbt.NDJSONBytes(rows)}, Timeout: 20 * time.Minute})
+	defer t.Cleanup()
+	c.rep.AddTLC(t)
+	if t.Distinct != int64(chunks)+1 {
+		mbt.Infra("LiteralsNameTrace (%s) visited %d of %d row groups:\n%s", label, t.Distinct-1, chunks, tail(t.Output))
+	}
+	for _, v := range t.Violated {
+		if v != "RowsOK" {
+			mbt.Infra("LiteralsNameTrace: unexpected violation %s", v)
+		}
+	}
+	for _, m := range reBad.FindAllStringSubmatch(t.Output, -1) {
+		i, _ := strconv.Atoi(m[2])
+		if m[1] == "unknown-row" {
+			mbt.Infra("LiteralsNameTrace: malformed row %d", i)
+		}
+		out[i-1] = m[1]
+	}
+	if len(t.Violated) > 0 && len(out) == 0 {
+		mbt.Infra("LiteralsNameTrace: RowsOK violated but no BADROW line:\n%s", tail(t.Output))
+	}
+	c.judged += len(rows)
+	c.rep.TracesValidated += len(rows)
+	return out
+}
+
+func tail(s string) string {
+	if len(s) > 2500 {
+		return s[len(s)-2500:]
+	}
+	return s
+}
+
+// canon is llvm-as | llvm-dis like llvmoracle.Canon, but keeps the source_filename line (a
+// position of this property) and reports a crash of llvm-dis as "LLVM does not read this"
+// instead of aborting the check (llvm-dis 14 crashes on some GC names it does not know).
+func canon(p *position, text string) (string, bool, string) {
+	bc, se, code, err := mbt.Tool([]byte(text), 60*time.Second, "llvm-as", "-o", "-", "-")
+	if err != nil {
+		mbt.Infra("llvm-as: %v", err)
+	}
+	if code == 124 {
+		mbt.Infra("llvm-as timed out")
+	}
+	if code != 0 {
+		return "", false, strings.TrimSpace(string(se))
+	}
+	if p != nil && p.asOnly {
+		return "", true, ""
+	}
+	so, se, code, err := mbt.Tool(bc, 60*time.Second, "llvm-dis", "-o", "-", "-")
+	if err != nil {
+		mbt.Infra("llvm-dis: %v", err)
+	}
+	if code != 0 {
+		return "", false, "llvm-dis fails on the module llvm-as accepted: " + firstLine(strings.TrimSpace(string(se)))
+	}
+	return string(so), true, ""
+}
+
+func permitted(p *position, b string) bool {
+	if b == "" {
+		return false
+	}
+	if !p.nul && strings.IndexByte(b, 0) >= 0 {
+		return false
+	}
+	if p.noLF && strings.IndexByte(b, '\n') >= 0 {
+		return false
+	}
+	return true
+}
+
+const batchSize = 150
+
+// ---------------------------------------------------------------------------
+// code -> spec
+
+// printOne builds the single-item module through the API and prints it.
+func (c *checker) printOne(p *position, b string) *obs {
+	o := &obs{pos: p, it: item{idx: 7, ord: 0, b: b}}
+	if msg, pan := mbt.Guard(func() {
+		m := ir.NewModule()
+		p.build(m, []item{o.it})
+		o.text = m.String()
+	}); pan {
+		c.rep.Fail(mbt.Failure{Signature: "C11|" + p.name + "|printer|panic|" + shape(b),
+			What: fmt.Sprintf("printing a module with %q at position %s panics: %s", b, p.name, mbt.Truncate(msg, 200)), Case: c.kase("T", p, b)})
+		return o
+	}
+	tok, ok := p.find(o.text, o.it)
+	if !ok {
+		c.rep.Fail(mbt.Failure{Signature: "C11|" + p.name + "|printer|position not found in output|" + shape(b),
+			What: fmt.Sprintf("the printed module does not show position %s for %q:\n%s", p.name, b, mbt.Truncate(o.text, 300)), Case: c.kase("T", p, b)})
+		return o
+	}
+	o.tok, o.printed = tok, true
+	return o
+}
+
+// tokenOf removes the sigil that is not part of the string token.
+func tokenOf(p *position, tok string) string {
+	if p.strip != "" && strings.HasPrefix(tok, p.strip) {
+		return tok[len(p.strip):]
+	}
+	if p.strip != "" {
+		return "\x00missing sigil\x00" + tok
+	}
+	return tok
+}
+
+func (c *checker) codeToSpec(p *position, bs []string) {
+	var all []*obs
+	for _, b := range bs {
+		if !permitted(p, b) {
+			continue
+		}
+		c.rep.Count("T|"+p.name+"|"+b, true)
+		o := c.printOne(p, b)
+		if o.printed {
+			all = append(all, o)
+		}
+	}
+	if len(all) == 0 {
+		return
+	}
+	// 1. TLC decodes the printed tokens with LLVM's lexer rules.
+	rows := make([]row, len(all))
+	for i, o := range all {
+		rows[i] = row{K: "tok", Kind: p.kind, Bytes: ints(o.it.b), Tok: ints(tokenOf(p, o.tok)), Pos: p.name, Src: "printed"}
+	}
+	for i, cl := range c.judge(rows, p.name+"/printed") {
+		all[i].specBad = cl
+	}
+	// (c) two different byte strings must not print alike
+	for _, o := range all {
+		key := p.name + "|" + o.tok
+		if prev, ok := c.uniq[key]; ok && prev != o.it.b {
+			c.rep.Fail(mbt.Failure{Signature: "C11|" + p.name + "|printer|two names print alike|" + shape(o.it.b),
+				What: fmt.Sprintf("position %s: %q and %q are both printed as %s", p.name, prev, o.it.b, o.tok), Case: c.kase("T", p, o.it.b)})
+		}
+		c.uniq[key] = o.it.b
+	}
+	// 2. LLVM reads the library's output: tokens the spec accepts in batches, the others one by one.
+	var good, single []*obs
+	for _, o := range all {
+		if o.specBad == "" && !p.single {
+			good = append(good, o)
+		} else {
+			single = append(single, o)
+		}
+	}
+	var batches [][]*obs
+	for i := 0; i < len(good); i += batchSize {
+		j := i + batchSize
+		if j > len(good) {
+			j = len(good)
+		}
+		batches = append(batches, good[i:j])
+	}
+	var mu sync.Mutex
+	llvmoracle.Parallel(len(batches), func(k int) {
+		batch := batches[k]
+		its := make([]item, len(batch))
+		for i, o := range batch {
+			its[i] = item{idx: 10 + i, ord: i, b: o.it.b}
+		}
+		var text string
+		_, pan := mbt.Guard(func() {
+			m := ir.NewModule()
+			p.build(m, its)
+			text = m.String()
+		})
+		var out string
+		ok := false
+		if !pan {
+			out, ok, _ = canon(p, text)
+		}
+		if !ok {
+			mu.Lock()
+			single = append(single, batch...)
+			mu.Unlock()
+			return
+		}
+		for i, o := range batch {
+			tok, found := p.find(out, its[i])
+			o.llvmOK = true
+			if p.asOnly {
+				o.llvmTok = o.tok
+			} else if found {
+				o.llvmTok = tok
+			} else {
+				o.llvmTok = "\x00not found\x00"
+			}
+		}
+	})
+	llvmoracle.Parallel(len(single), func(k int) {
+		o := single[k]
+		out, ok, diag := canon(p, o.text)
+		o.llvmOK, o.llvmDiag = ok, diag
+		if ok {
+			tok, found := p.find(out, o.it)
+			if p.asOnly {
+				o.llvmTok = o.tok
+			} else if found {
+				o.llvmTok = tok
+			} else {
+				o.llvmTok = "\x00not found\x00"
+			}
+		}
+	})
+	// 3. TLC decodes LLVM's canonical spelling.
+	var lrows []row
+	var lidx []int
+	for i, o := range all {
+		if o.llvmOK {
+			lrows = append(lrows, row{K: "tok", Kind: p.kind, Bytes: ints(o.it.b), Tok: ints(tokenOf(p, o.llvmTok)), Pos: p.name, Src: "llvm"})
+			lidx = append(lidx, i)
+		}
+	}
+	for i, cl := range c.judge(lrows, p.name+"/llvm") {
+		all[lidx[i]].llvmBad = cl
+	}
+	// 4. verdicts
+	for _, o := range all {
+		b := o.it.b
+		llvmReadsBytes := o.llvmOK && o.llvmBad == ""
+		switch {
+		case o.specBad == "" && llvmReadsBytes:
+			// the property holds on this record
+		case o.specBad != "" && !llvmReadsBytes:
+			what := fmt.Sprintf("position %s: %q is printed as %s; LLVM's lexer rules (TLC): %s; ", p.name, b, o.tok, o.specBad)
+			if o.llvmOK {
+				what += fmt.Sprintf("llvm-as | llvm-dis reads it as %s (%s)", o.llvmTok, o.llvmBad)
+			} else {
+				what += "llvm-as: " + mbt.Truncate(firstLine(o.llvmDiag), 160)
+			}
+			c.rep.Fail(mbt.Failure{Signature: "C11|" + p.name + "|printer|" + o.specBad + "|" + shape(b), What: what, Case: c.kase("T", p, b)})
+		case o.specBad != "":
+			c.discard("position %s, %q printed as %s: the spec says %s but LLVM reads the bytes", p.name, b, o.tok, o.specBad)
+		default:
+			if o.llvmOK {
+				c.discard("position %s, %q printed as %s: the spec decodes it to the bytes but LLVM's spelling %s decodes differently (%s)", p.name, b, o.tok, o.llvmTok, o.llvmBad)
+			} else {
+				c.discard("position %s, %q printed as %s: the spec decodes it to the bytes but llvm-as rejects the module: %s", p.name, b, o.tok, mbt.Truncate(firstLine(o.llvmDiag), 160))
+			}
+		}
+	}
+	// 5. the library's own parser reads its output back
+	for _, o := range all {
+		c.parseBack("T", p, o.it, o.text, "printer+parser", o.tok)
+	}
+}
+
+func firstLine(s string) string {
+	if i := strings.IndexByte(s, '\n'); i >= 0 {
+		return s[:i]
+	}
+	return s
+}
+
+// parseBack parses text with the library and compares the bytes at the position.
+func (c *checker) parseBack(dir string, p *position, it item, text, site, tok string) bool {
+	b := it.b
+	var m *ir.Module
+	var err error
+	if msg, pan := mbt.Guard(func() { m, err = asm.ParseString("c11.ll", text) }); pan {
+		c.rep.Fail(mbt.Failure{Signature: "C11|" + p.name + "|" + site + "|panic|" + shape(b),
+			What: fmt.Sprintf("position %s, %q spelled %s: asm.ParseString panics: %s", p.name, b, tok, mbt.Truncate(msg, 200)), Case: c.kase(dir, p, b)})
+		return false
+	}
+	if err != nil {
+		c.rep.Fail(mbt.Failure{Signature: "C11|" + p.name + "|" + site + "|rejected|" + shape(b),
+			What: fmt.Sprintf("position %s, %q spelled %s: asm.ParseString fails: %s", p.name, b, tok, mbt.Truncate(firstLine(err.Error()), 200)), Case: c.kase(dir, p, b)})
+		return false
+	}
+	var got string
+	var isID, ok bool
+	if msg, pan := mbt.Guard(func() { got, isID, ok = p.back(m, it) }); pan {
+		mbt.Infra("reading position %s back panics: %s", p.name, msg)
+	}
+	switch {
+	case !ok:
+		c.rep.Fail(mbt.Failure{Signature: "C11|" + p.name + "|" + site + "|position lost|" + shape(b),
+			What: fmt.Sprintf("position %s, %q spelled %s: the parsed module does not have the entity", p.name, b, tok), Case: c.kase(dir, p, b)})
+	case isID:
+		c.rep.Fail(mbt.Failure{Signature: "C11|" + p.name + "|" + site + "|read-as-id|" + shape(b),
+			What: fmt.Sprintf("position %s, %q spelled %s: parsed back as the unnamed ID %s", p.name, b, tok, got), Case: c.kase(dir, p, b)})
+	case got != b:
+		c.rep.Fail(mbt.Failure{Signature: "C11|" + p.name + "|" + site + "|other-bytes|" + shape(b),
+			What: fmt.Sprintf("position %s, %q spelled %s: parsed back as %q", p.name, b, tok, got), Case: c.kase(dir, p, b)})
+	default:
+		return true
+	}
+	return false
+}
+
+// ---------------------------------------------------------------------------
+// spec -> code
+
+type vector struct {
+	Kind  string `json:"kind"`
+	Bytes []int  `json:"bytes"`
+	Tok   []int  `json:"tok"`
+}
+
+func readVectors(out string) []vector {
+	var vs []vector
+	for _, l := range strings.Split(out, "\n") {
+		if !strings.HasPrefix(l, `"{`) {
+			continue
+		}
+		var s string
+		if err := json.Unmarshal([]byte(l), &s); err != nil {
+			mbt.Infra("vector line %q: %v", mbt.Truncate(l, 120), err)
+		}
+		var v vector
+		if err := json.Unmarshal([]byte(s), &v); err != nil {
+			mbt.Infra("vector %q: %v", mbt.Truncate(s, 120), err)
+		}
+		vs = append(vs, v)
+	}
+	return vs
+}
+
+type gcase struct {
+	b, tok string
+}
+
+func (c *checker) specToCode(p *position, cases []gcase) {
+	var use []gcase
+	for _, g := range cases {
+		if permitted(p, g.b) {
+			use = append(use, g)
+		}
+	}
+	if len(use) == 0 {
+		return
+	}
+	full := func(g gcase) string { return p.strip + g.tok }
+	// LLVM must read the reference spelling as the spec says: its canonical spelling is the same token.
+	valid := make([]bool, len(use))
+	type job struct{ lo, hi int }
+	var jobs []job
+	step := batchSize
+	if p.single {
+		step = 1
+	}
+	for i := 0; i < len(use); i += step {
+		j := i + step
+		if j > len(use) {
+			j = len(use)
+		}
+		jobs = append(jobs, job{i, j})
+	}
+	check := func(lo, hi int) bool {
+		its := make([]item, hi-lo)
+		toks := make([]string, hi-lo)
+		for i := lo; i < hi; i++ {
+			its[i-lo] = item{idx: 10 + i - lo, ord: i - lo, b: use[i].b}
+			toks[i-lo] = full(use[i])
+		}
+		out, ok, diag := canon(p, p.text(toks, its))
+		if !ok {
+			if hi-lo == 1 {
+				c.discard("position %s: llvm-as rejects the reference spelling %s of %q: %s", p.name, toks[0], use[lo].b, mbt.Truncate(firstLine(diag), 160))
+			}
+			return false
+		}
+		for i := lo; i < hi; i++ {
+			tok, found := p.find(out, its[i-lo])
+			if p.asOnly || (found && tok == toks[i-lo]) {
+				valid[i] = true
+			} else {
+				c.discard("position %s: LLVM spells %q as %s, the reference encoder as %s", p.name, use[i].b, tok, toks[i-lo])
+			}
+		}
+		return true
+	}
+	llvmoracle.Parallel(len(jobs), func(k int) {
+		if !check(jobs[k].lo, jobs[k].hi) && jobs[k].hi-jobs[k].lo > 1 {
+			for i := jobs[k].lo; i < jobs[k].hi; i++ {
+				check(i, i+1)
+			}
+		}
+	})
+	// the real parser must deliver the bytes
+	for i, g := range use {
+		if !valid[i] {
+			continue
+		}
+		c.rep.Count("G|"+p.name+"|"+g.b, true)
+		it := item{idx: 7, ord: 0, b: g.b}
+		c.parseBack("G", p, it, p.text([]string{full(g)}, []item{it}), "parser", full(g))
+	}
+}
+
+// ---------------------------------------------------------------------------
+// the encoders of internal/enc, recorded directly
+
+func (c *checker) encoders(bs []string) {
+	type enc struct {
+		name, kind, pos string
+		f               func(string) string
+	}
+	encs := []enc{
+		{"enc.GlobalName", "global", "global", verifshim.GlobalName},
+		{"enc.LocalName", "local", "param", verifshim.LocalName},
+		{"enc.LabelName", "label", "label", verifshim.LabelName},
+		{"enc.TypeName", "type", "type", verifshim.TypeName},
+		{"enc.ComdatName", "comdat", "comdat", verifshim.ComdatName},
+		{"enc.MetadataName", "mdname", "mdname", verifshim.MetadataName},
+		{"enc.EscapeIdent", "comdat", "comdat", func(s string) string { return "$" + verifshim.EscapeIdent(s) }},
+		{"enc.Quote", "string", "section", func(s string) string { return verifshim.Quote([]byte(s)) }},
+		{"enc.EscapeString", "string", "section", func(s string) string { return `"` + verifshim.EscapeString([]byte(s)) + `"` }},
+	}
+	var rows []row
+	type meta struct {
+		e enc
+		b string
+	}
+	var metas []meta
+	for _, e := range encs {
+		for _, b := range bs {
+			if e.kind != "string" && strings.IndexByte(b, 0) >= 0 {
+				continue
+			}
+			if b == "" && e.name != "enc.MetadataName" && e.kind != "string" {
+				continue
+			}
+			c.rep.Count("enc|"+e.name+"|"+b, true)
+			var tok string
+			if msg, pan := mbt.Guard(func() { tok = e.f(b) }); pan {
+				c.rep.Fail(mbt.Failure{Signature: "C11|" + e.name + "|panic|" + shape(b),
+					What: fmt.Sprintf("%s(%q) panics: %s", e.name, b, mbt.Truncate(msg, 200)),
+					Case: map[string]interface{}{"dir": "enc", "enc": e.name, "bytes": hex.EncodeToString([]byte(b))}})
+				continue
+			}
+			if b == "" {
+				continue
+			}
+			rows = append(rows, row{K: "tok", Kind: e.kind, Bytes: ints(b), Tok: ints(tok), Pos: e.pos, Src: e.name})
+			metas = append(metas, meta{e, b})
+		}
+	}
+	// IDs
+	for _, n := range []int64{0, 1, 42, 999999999} {
+		ds := strconv.FormatInt(n, 10)
+		for _, e := range []struct{ kind, tok string }{
+			{"global", verifshim.GlobalID(n)}, {"local", verifshim.LocalID(n)}, {"label", verifshim.LabelID(n)}, {"mdname", verifshim.MetadataID(n)},
+		} {
+			rows = append(rows, row{K: "id", Kind: e.kind, Bytes: ints(ds), Tok: ints(e.tok), Src: "enc id"})
+			metas = append(metas, meta{enc{name: "enc ID of " + e.kind, kind: e.kind}, ds})
+			c.rep.Count("enc|id|"+e.kind+"|"+ds, true)
+		}
+	}
+	// Unescape and Unquote against the lexer's rule
+	for _, b := range bs {
+		if strings.IndexByte(b, '"') >= 0 {
+			continue
+		}
+		var out, out2 string
+		if msg, pan := mbt.Guard(func() {
+			out = string(verifshim.Unescape(b))
+			out2 = string(verifshim.Unquote(`"` + b + `"`))
+		}); pan {
+			c.rep.Fail(mbt.Failure{Signature: "C11|enc.Unescape|panic|" + shape(b), What: fmt.Sprintf("enc.Unescape/Unquote(%q) panics: %s", b, msg),
+				Case: map[string]interface{}{"dir": "enc", "enc": "enc.Unescape", "bytes": hex.EncodeToString([]byte(b))}})
+			continue
+		}
+		c.rep.Count("enc|unescape|"+b, true)
+		rows = append(rows, row{K: "unescape", Bytes: ints(b), Tok: ints(out), Src: "enc.Unescape"})
+		metas = append(metas, meta{enc{name: "enc.Unescape"}, b})
+		if out2 != out {
+			rows = append(rows, row{K: "unescape", Bytes: ints(b), Tok: ints(out2), Src: "enc.Unquote"})
+			metas = append(metas, meta{enc{name: "enc.Unquote"}, b})
+		}
+	}
+	bad := c.judge(rows, "encoders")
+	// a token the spec rejects is confirmed by LLVM in a module text before it becomes a verdict
+	byPos := map[string]*position{}
+	for _, p := range positions() {
+		byPos[p.name] = p
+	}
+	var idxs []int
+	for i := range bad {
+		idxs = append(idxs, i)
+	}
+	sort.Ints(idxs)
+	type res struct {
+		ok   bool
+		diag string
+		tok  string
+	}
+	results := make([]res, len(idxs))
+	llvmoracle.Parallel(len(idxs), func(k int) {
+		i := idxs[k]
+		r, mt := rows[i], metas[i]
+		if r.K != "tok" {
+			return
+		}
+		p := byPos[mt.e.pos]
+		it := item{idx: 7, ord: 0, b: mt.b}
+		out, ok, diag := canon(p, p.text([]string{str(r.Tok)}, []item{it}))
+		results[k] = res{ok: ok, diag: diag}
+		if ok {
+			results[k].tok, _ = p.find(out, it)
+			if p.asOnly {
+				results[k].tok = str(r.Tok)
+			}
+		}
+	})
+	var confirm []row
+	var confirmIdx []int
+	for k, i := range idxs {
+		if rows[i].K == "tok" && results[k].ok {
+			confirm = append(confirm, row{K: "tok", Kind: rows[i].Kind, Bytes: rows[i].Bytes, Tok: ints(results[k].tok), Src: "llvm"})
+			confirmIdx = append(confirmIdx, k)
+		}
+	}
+	llvmBad := map[int]string{}
+	for j, cl := range c.judge(confirm, "encoders/llvm") {
+		llvmBad[confirmIdx[j]] = cl
+	}
+	for k, i := range idxs {
+		r, mt := rows[i], metas[i]
+		kase := map[string]interface{}{"dir": "enc", "enc": mt.e.name, "bytes": hex.EncodeToString([]byte(mt.b))}
+		switch r.K {
+		case "tok":
+			if results[k].ok && llvmBad[k] == "" {
+				c.discard("%s(%q) = %s: the spec says %s but LLVM reads the bytes", mt.e.name, mt.b, str(r.Tok), bad[i])
+				continue
+			}
+			c.rep.Fail(mbt.Failure{Signature: "C11|" + mt.e.name + "|" + bad[i] + "|" + shape(mt.b),
+				What: fmt.Sprintf("%s(%q) = %s; LLVM's lexer rules (TLC): %s; llvm-as on a module with this token: %s", mt.e.name, mt.b, str(r.Tok), bad[i], llvmSays(results[k].ok, results[k].diag, results[k].tok)), Case: kase})
+		case "id":
+			c.rep.Fail(mbt.Failure{Signature: "C11|" + mt.e.name + "|" + bad[i], What: fmt.Sprintf("%s: ID %s is spelled %s, which is not read as that ID", mt.e.name, mt.b, str(r.Tok)), Case: kase})
+		case "unescape":
+			c.rep.Fail(mbt.Failure{Signature: "C11|" + mt.e.name + "|differs from the lexer's unescaping|" + shape(mt.b),
+				What: fmt.Sprintf("%s(%q) = %q differs from LLVM's UnEscapeLexed", mt.e.name, mt.b, str(r.Tok)), Case: kase})
+		}
+	}
+}
+
+func llvmSays(ok bool, diag, tok string) string {
+	if !ok {
+		return "rejected: " + mbt.Truncate(firstLine(diag), 160)
+	}
+	return "read as " + tok
+}
+
+// ---------------------------------------------------------------------------
+// unnamed IDs stay IDs
+
+func (c *checker) idsStayIDs() {
+	m := ir.NewModule()
+	m.NewGlobalDef("", i32(1))
+	f := m.NewFunc("", i32(0).Typ, ir.NewParam("", i32(0).Typ))
+	b := f.NewBlock("")
+	add := b.NewAdd(f.Params[0], i32(2))
+	b.NewRet(add)
+	var text string
+	if msg, pan := mbt.Guard(func() { text = m.String() }); pan {
+		c.rep.Fail(mbt.Failure{Signature: "C11|ids|printer|panic", What: "printing a module of unnamed entities panics: " + msg, Case: map[string]interface{}{"dir": "ids"}})
+		return
+	}
+	c.rep.Count("ids", true)
+	fail := func(what string) {
+		c.rep.Fail(mbt.Failure{Signature: "C11|ids|unnamed entity not read back as an ID", What: what + ":\n" + text, Case: map[string]interface{}{"dir": "ids"}})
+	}
+	if _, ok, diag := canon(nil, text); !ok {
+		fail("llvm-as rejects the printed module of unnamed entities: " + diag)
+		return
+	}
+	m2, err := asm.ParseString("ids.ll", text)
+	if err != nil {
+		fail("asm.ParseString rejects the printed module of unnamed entities: " + err.Error())
+		return
+	}
+	if len(m2.Globals) != 1 || !m2.Globals[0].IsUnnamed() || m2.Globals[0].GlobalID != 0 {
+		fail("the unnamed global @0 is not read back as ID 0")
+	}
+	if len(m2.Funcs) != 1 || !m2.Funcs[0].IsUnnamed() || m2.Funcs[0].GlobalID != 1 {
+		fail("the unnamed function @1 is not read back as ID 1")
+		return
+	}
+	f2 := m2.Funcs[0]
+	if !f2.Params[0].IsUnnamed() || !f2.Blocks[0].IsUnnamed() {
+		fail("unnamed parameter or block not read back as IDs")
+	}
+	if v, ok := f2.Blocks[0].Insts[0].(*ir.InstAdd); !ok || !v.IsUnnamed() || v.LocalID != 2 {
+		fail("the unnamed instruction %2 is not read back as ID 2")
+	}
+}
+
+// ---------------------------------------------------------------------------
+// byte strings
+
+var classReps = []byte{'a', 'C', 'z', '5', '2', '$', '-', '.', '_', ' ', '"', '\\', 0x01, 0x7F, 0x80, 0xFF, 0x00}
+
+func stringsUpTo(alphabet []byte, n int) []string {
+	out := []string{}
+	prev := []string{""}
+	for l := 1; l <= n; l++ {
+		var cur []string
+		for _, p := range prev {
+			for _, ch := range alphabet {
+				cur = append(cur, p+string([]byte{ch}))
+			}
+		}
+		out = append(out, cur...)
+		prev = cur
+	}
+	return out
+}
+
+var extras = []string{
+	`\5C`, `\\`, `\2`, `\zz`, `\22`, `a\41b`, `\5c5C`, `\\5C`, `a\`, `\0`, `\00`, `"\22"`, `a"b`, `\"`,
+	"0", "1", "42", "007", "00", "1a", "2b", "1_", "9.5", "1e5", "0x1F", "-1", "-", "a.b", "struct.foo", "a-b$c_d",
+	"4294967295", "4294967296", "9223372036854775807", "9223372036854775808", "18446744073709551615", "18446744073709551616", "99999999999999999999",
+	"世界", "\xE4\xB8", "a b", " a", "a ", "\t", "\r", "a\nb", "ret", "i32", "c", "x", "true", "null", "%a", "@a", "!a", "$a", "a:", "a=b", "a,b", "(a)", "{a}", "#0", ";a", "a;b",
+	strings.Repeat("a", 300), strings.Repeat("\\", 7), strings.Repeat("\"", 3),
+}
+
+func randomStrings(rng *rand.Rand, n int) []string {
+	pieces := []string{"a", "Z", "0", "9", "5C", "\\", "\\\\", "\"", " ", "$", "-", ".", "_", "\x01", "\x7f", "\x80", "\xff", "\xc3\xa9", "\\4", "\\41", "\\zz", ":", "%", "@", "!", "#", "=", ",", "(", "{", ";", "\t", "\r"}
+	seen := map[string]bool{}
+	var out []string
+	for len(out) < n {
+		var sb strings.Builder
+		k := 1 + rng.Intn(6)
+		if rng.Intn(10) == 0 {
+			k = 10 + rng.Intn(30)
+		}
+		for i := 0; i < k; i++ {
+			if rng.Intn(5) == 0 {
+				sb.WriteByte(byte(1 + rng.Intn(255)))
+			} else {
+				sb.WriteString(pieces[rng.Intn(len(pieces))])
+			}
+		}
+		s := sb.String()
+		if !seen[s] {
+			seen[s] = true
+			out = append(out, s)
+		}
+	}
+	return out
+}
+
+// ---------------------------------------------------------------------------
+
 // Run is the C11 check.
-func Run(tier, replay string) { mbt.Infra("check C11 is not built yet") }
+func Run(tier, replay string) {
+	rep := mbt.NewReport("C11", tier, "model_checking")
+	rep.Rule = "distinct (position, byte string) pairs whose printed token was decoded by TLC with LLVM's lexer rules, read by llvm-as | llvm-dis and parsed back by asm; plus (position, byte string) pairs whose reference spelling was confirmed by LLVM and fed to the real parser; plus direct recordings of the internal/enc encoders"
+	llvmoracle.Require()
+	c := &checker{rep: rep, tier: tier, uniq: map[string]string{}}
+	if replay != "" {
+		runReplay(c, replay)
+		rep.Finish()
+	}
+	rng := rand.New(rand.NewSource(mbt.Seed()))
+
+	// (S) design level: LLVM's printer inverts LLVM's lexer; the model of internal/enc does not.
+	t := mbt.MustTLC(mbt.TLCOpts{Spec: "LiteralsName", Cfg: "LiteralsNameAsImpl.cfg", Workers: 4, Continue: true})
+	hasRT, hasCrash := false, false
+	for _, v := range t.Violated {
+		hasRT = hasRT || v == "RoundTrip"
+		hasCrash = hasCrash || v == "NoCrash"
+	}
+	if !hasRT || !hasCrash {
+		mbt.Infra("LiteralsNameAsImpl.cfg: expected RoundTrip and NoCrash to be violated by the as-implemented encoders, got %v", t.Violated)
+	}
+	rep.Extra["as_implemented_model_violates"] = t.Violated
+	t.Cleanup()
+
+	maxLen := 2
+	consts := map[string]string{}
+	if tier == "thorough" {
+		maxLen = 3
+		consts["MaxLen"] = "3"
+		consts["PairLen"] = "2"
+	}
+	t = mbt.MustTLC(mbt.TLCOpts{Spec: "LiteralsName", Cfg: "LiteralsName.cfg", Consts: consts, Workers: 8, Timeout: 20 * time.Minute})
+	if len(t.Violated) > 0 {
+		mbt.Infra("reference coder of Literals.tla violates %v: specification error\n%s", t.Violated, tail(t.Output))
+	}
+	rep.AddTLC(t)
+	rep.Extra["wall_s_tlc_reference_coder"] = t.Wall.Seconds()
+	vectors := readVectors(t.Output)
+	t.Cleanup()
+	if len(vectors) == 0 {
+		mbt.Infra("LiteralsName emitted no vectors")
+	}
+	rep.Extra["vectors_from_tlc"] = len(vectors)
+	byKind := map[string][]gcase{}
+	for _, v := range vectors {
+		byKind[v.Kind] = append(byKind[v.Kind], gcase{b: str(v.Bytes), tok: str(v.Tok)})
+	}
+
+	// byte strings for the code -> spec direction
+	bs := stringsUpTo(classReps, maxLen)
+	bs = append(bs, extras...)
+	nrand := 150
+	if tier == "thorough" {
+		nrand = 1500
+	}
+	bs = append(bs, randomStrings(rng, nrand)...)
+	seen := map[string]bool{}
+	var uniq []string
+	for _, b := range bs {
+		if !seen[b] {
+			seen[b] = true
+			uniq = append(uniq, b)
+		}
+	}
+	rep.Extra["byte_strings"] = len(uniq)
+
+	t0 := time.Now()
+	only := os.Getenv("VERIF_C11_POS") // development aid: restrict to one position
+	for _, p := range positions() {
+		if only != "" && p.name != only {
+			continue
+		}
+		t1 := time.Now()
+		c.codeToSpec(p, uniq)
+		rep.Extra["wall_s_code_to_spec_"+p.name] = time.Since(t1).Seconds()
+	}
+	rep.Extra["wall_s_code_to_spec"] = time.Since(t0).Seconds()
+	t0 = time.Now()
+	for _, p := range positions() {
+		if only != "" && p.name != only {
+			continue
+		}
+		c.specToCode(p, byKind[p.kind])
+	}
+	rep.Extra["wall_s_spec_to_code"] = time.Since(t0).Seconds()
+	c.encoders(append([]string{""}, uniq...))
+	c.idsStayIDs()
+
+	total := rep.Evaluations
+	rep.Extra["records_discarded_spec_llvm_disagreement"] = c.discards
+	if total > 0 && c.discards*50 > total {
+		mbt.Infra("%d of %d records discarded because the spec and LLVM disagree (> 2%%): the specification is wrong", c.discards, total)
+	}
+	rep.Sample(map[string]interface{}{"dir": "code->spec", "position": "global", "bytes": "a b", "printed": verifshim.GlobalName("a b")})
+	rep.Sample(map[string]interface{}{"dir": "code->spec", "position": "mdname", "bytes": "1 a", "printed": verifshim.MetadataName("1 a")})
+	if len(vectors) > 3 {
+		for _, v := range vectors[:2] {
+			rep.Sample(map[string]interface{}{"dir": "spec->code", "kind": v.Kind, "bytes": str(v.Bytes), "reference_token": str(v.Tok)})
+		}
+	}
+	rep.Exhaustive = false
+	rep.Explanation = fmt.Sprintf("all byte strings of length <= %d over %d class representatives in every position, plus escape-like, numeric and random strings", maxLen, len(classReps))
+	rep.Assumptions = []string{
+		"Literals!DecodeToken transcribes LLVM 14's LLLexer; every record on which llvm-as | llvm-dis disagrees with it is discarded and counted (exit 2 above 2 %)",
+		"tokens are located in the printed text by the surrounding fixed text of each position (harness/props/c11/positions.go)",
+		"NUL bytes only in character arrays and metadata strings; empty names and strings are not enumerated (LLVM treats them as absent), except enc.MetadataName(\"\") which must not crash",
+	}
+	rep.Finish()
+}
+
+func runReplay(c *checker, path string) {
+	type rf struct {
+		Failures []struct {
+			Case map[string]interface{} `json:"case"`
+		} `json:"failures"`
+	}
+	var one rf
+	if e := mbt.ReadJSON(path, &one); e != nil {
+		mbt.Infra("replay %s: %v", path, e)
+	}
+	byPos := map[string]*position{}
+	for _, p := range positions() {
+		byPos[p.name] = p
+	}
+	for _, f := range one.Failures {
+		hx, _ := f.Case["bytes"].(string)
+		raw, _ := hex.DecodeString(hx)
+		b := string(raw)
+		switch f.Case["dir"] {
+		case "T", "G":
+			pn, _ := f.Case["pos"].(string)
+			p := byPos[pn]
+			if p == nil {
+				continue
+			}
+			c.codeToSpec(p, []string{b})
+			// the reference spelling: ask the spec
+			c.replayG(p, b)
+		case "enc":
+			c.encoders([]string{b})
+		case "ids":
+			c.idsStayIDs()
+		}
+	}
+}
+
+// replayG obtains the reference token of one byte string from TLC and runs the spec -> code step.
+func (c *checker) replayG(p *position, b string) {
+	if !permitted(p, b) {
+		return
+	}
+	// the reference encoder is evaluated by TLC on exactly this string: alphabet = its bytes is too
+	// large in general, so the string is handed over as a one-element domain through the constants
+	set := map[int]bool{}
+	for i := 0; i < len(b); i++ {
+		set[int(b[i])] = true
+	}
+	if len(b) > 3 || len(set) > 3 {
+		c.rep.Note("replay: the reference spelling of %q is not re-derived (string longer than the enumeration bound); only the code -> spec direction was replayed", b)
+		return
+	}
+	var al []string
+	for v := range set {
+		al = append(al, strconv.Itoa(v))
+	}
+	sort.Strings(al)
+	t := mbt.MustTLC(mbt.TLCOpts{Spec: "LiteralsName", Cfg: "LiteralsName.cfg", Workers: 2,
+		Consts: map[string]string{"Alphabet": "{" + strings.Join(al, ", ") + "}", "MaxLen": strconv.Itoa(len(b)), "PairLen": "0", "Kinds": `{"` + p.kind + `"}`}})
+	defer t.Cleanup()
+	for _, v := range readVectors(t.Output) {
+		if str(v.Bytes) == b {
+			c.specToCode(p, []gcase{{b: b, tok: str(v.Tok)}})
+		}
+	}
+}
